@@ -319,6 +319,9 @@ func generate() {
 	// 2d. many malformed lines in ONE input: every one a positioned NON-FATAL error, every
 	// well-formed line after them still a result
 	manyErrors()
+	// 2e. a reused Reader whose previous input ENDED IN AN I/O ERROR (line over the 64 KiB token
+	// limit; failing io.Reader), then Reset onto normal inputs: fresh behaviour, Err() nil again
+	afterIOErrors(r)
 	// 3. line grammar, plain and exotic
 	n := hx.N(1500, 40000)
 	for i := 0; i < n; i++ {
@@ -620,4 +623,36 @@ func manyErrors() {
 	runFiles([]string{"c", "a", "b", "a"}, false, false, fs, nil, "manyerrors")
 	// a reused Reader: errors of the first input must not count against the second
 	runReaderReuse("second", mk(101, false), nil, mk(101, true), -1, "manyerrors")
+}
+
+func afterIOErrors(r *hx.Rand) {
+	long := strings.Repeat("z", 65536)
+	pres := [][]byte{
+		[]byte("Unit ns/op better=lower\nBenchmarkP 1 1 ns/op\n" + long + "\nBenchmarkNever 1 1 ns/op\n"),
+		[]byte(long),
+		[]byte("k: v\nBenchmarkP 1 1 ns/op\nk2: " + long),
+	}
+	seconds := []string{
+		"BenchmarkNew 1 5 ns/op\n",
+		"j: w\nUnit ns/op better=higher c=3\nBenchmarkNew 1 5 ns/op\nBenchmarkBad 1\n",
+		"",
+	}
+	for _, p := range pres {
+		for si, s := range seconds {
+			var init []string
+			if si == 1 {
+				init = []string{"k", "label"}
+			}
+			runReaderReuse("second", []byte(s), init, p, -1, "afterioerror", "corpus")
+		}
+	}
+	// the first input's io.Reader fails after some bytes (also mid-line)
+	for _, p := range []string{"", "Unit B/op a=1\nBenchmarkP 1 1 ns/op\nk: partial", "BenchmarkP 1 1 ns/op\n"} {
+		for _, s := range seconds {
+			runReaderAfterIOError("second", []byte(s), nil, []byte(p), "corpus")
+		}
+	}
+	for i := hx.N(40, 1000); i > 0; i-- {
+		runReaderAfterIOError("f", genText(r, 1+r.Intn(8), false), genLabels(r), genText(r, 1+r.Intn(6), false))
+	}
 }
